@@ -165,6 +165,26 @@ def run(pid, tier, seed):
         rc, out = vlib.run_test_binary(binp, "TestVerifME", {"VERIF_IN": inp, "VERIF_OUT": outp})
         if rc != 0 or "VERIF-ME" not in out:
             raise Infra("ME harness failed:\n" + out[-3000:])
+        # adaptive random driver: long histories (re-adds, flaps, late and reordered timers), judged by the same clauses
+        jobs = []
+        nj, nsteps = (150, 40) if tier == "quick" else (2500, 80)
+        for ci in idxs:
+            R, D, ninit, nids, qd, td = CONFIGS[ci]
+            for j in range(nj):
+                jobs.append({"id": "rnd-r%dd%dn%d-%d" % (R, D, ninit, j), "cfg": {"eps": ["a", "b", "c", "d"][:ninit], "r": R, "d": D},
+                             "seed": seed * 7919 + ci * 104729 + j, "steps": nsteps, "names": 3 if j % 4 else 4})
+        jin, jout = scratch.path("me-jobs.ndjson"), scratch.path("me-rtrace.ndjson")
+        with open(jin, "w") as f:
+            for j in jobs:
+                f.write(json.dumps(j) + "\n")
+        rc, out = vlib.run_test_binary(binp, "TestVerifMERandom", {"VERIF_IN": jin, "VERIF_OUT": jout})
+        if rc != 0 or "VERIF-MERAND" not in out:
+            raise Infra("ME random driver failed:\n" + out[-3000:])
+        with open(outp, "a") as fo:
+            for ln in open(jout):
+                fo.write(ln)
+        for j in jobs:
+            scripts.append({"id": j["id"], "random_job": j})
         verdict = validate(scratch, outp)
         mine = []
         for b in verdict["bad"]:
